@@ -26,6 +26,19 @@ func (self *Compiler) popLoop() {
 	self.loops = self.loops[:len(self.loops)-1]
 }
 
+// Makes `module` the current module and installs its global scope as the outermost variable scope.
+func (self *Compiler) enterModule(module string) {
+	self.currModule = module
+
+	if _, found := self.globalScopes[module]; !found {
+		self.globalScopes[module] = make(map[string]string)
+		self.importedFns[module] = make(map[string]string)
+	}
+
+	self.varScopes[0] = self.globalScopes[module]
+	self.currScope = &self.varScopes[len(self.varScopes)-1]
+}
+
 func (self *Compiler) pushScope() {
 	self.varScopes = append(self.varScopes, make(map[string]string))
 	self.currScope = &self.varScopes[len(self.varScopes)-1]
@@ -91,6 +104,11 @@ func (self Compiler) getMangledFn(input string) (string, bool) {
 		if key == input {
 			return fn.MangledName, true
 		}
+	}
+
+	// A function which the current module imports from another module.
+	if mangled, found := self.importedFns[self.currModule][input]; found {
+		return mangled, true
 	}
 
 	// TODO: i don't think that this is really reliable
